@@ -170,6 +170,41 @@ def constructors():
                             inp["p%d" % i] = [(base + j if c == INT else base + j + 0.25) for j in range(p)]
                     funcs.append((fn("c%d" % k, params, t, [Return(Construct(t, args))]), [inp]))
                     k += 1
+    # vector arguments whose component type differs from the target's: every component is converted, whether it arrives as a
+    # scalar or inside a vector (float -> int narrows: fractional values, so that a missing conversion shows in the result
+    # and in what integer operations on it give)
+    FRAC = [1.5, 2.75, -3.25, 4.5]
+    INTS = [7, -2, 9, 4]
+    for tc, ac in ((INT, FLOAT), (FLOAT, INT)):
+        for n in (2, 3, 4):
+            t = vec(tc, n)
+
+            def comps2(left):
+                if left == 0:
+                    yield []
+                    return
+                for p in range(1, left + 1):
+                    if p == n:
+                        continue
+                    for rest in comps2(left - p):
+                        yield [p] + rest
+            for parts in comps2(n):
+                if all(p == 1 for p in parts):
+                    continue
+                params, args, inp, off = [], [], {}, 0
+                for i, p in enumerate(parts):
+                    pc = ac if p > 1 else (tc if i % 2 else ac)
+                    pt = pc if p == 1 else vec(pc, p)
+                    params.append((pt, "p%d" % i))
+                    args.append(V("p%d" % i, pt))
+                    src = FRAC if pc == FLOAT else INTS
+                    vs = [src[(off + j) % 4] for j in range(p)]
+                    inp["p%d" % i] = vs[0] if p == 1 else vs
+                    off += p
+                three = IntLit(3) if tc == INT else FloatLit(3.0)
+                body = [Decl(t, "r", Construct(t, args)), Return(Bin("+", Bin("*", V("r", t), three, t), V("r", t), t))]
+                funcs.append((fn("c%d" % k, params, t, body), [inp]))
+                k += 1
     cases = []
     for ch in chunks(funcs, 40):
         cases.append(("constructor", Module(funcs=[f for f, _ in ch]), [(f.name, [(a, {}) for a in ins]) for f, ins in ch]))
